@@ -11,7 +11,6 @@ use serde_json::json;
 
 use crate::bed::v5::{SendKind, SendRes};
 use crate::bed::*;
-use crate::props::c05::send_kind;
 use crate::runner::*;
 use crate::sinkbed::*;
 
@@ -33,6 +32,7 @@ pub async fn run_case(c: Case) -> Result<CaseInfo, Failure> {
     let mut batch_with_waiters = false;
     let mut stream_paused = false;
     let mut trace: Vec<u8> = Vec::new();
+    let mut inbound_while_stalled = false;
     for op in &c.ops {
         if w.ended() {
             break;
@@ -48,6 +48,14 @@ pub async fn run_case(c: Case) -> Result<CaseInfo, Failure> {
         // at most one streamed publish per history (a second one is refused while the first owes payload)
         if matches!(op, Op::StreamStart { .. }) && !w.streams.is_empty() {
             continue;
+        }
+        // an inbound packet delivered while the peer is stalled may be handled only after the stall is lifted (the
+        // dispatcher pauses under write back-pressure): its response would fall due inside a stream started meanwhile
+        match op {
+            Op::Inbound(_) if w.stalled => inbound_while_stalled = true,
+            Op::Window(true) => inbound_while_stalled = false,
+            Op::StreamStart { .. } if inbound_while_stalled => continue,
+            _ => {}
         }
         if c.role.is_server() && matches!(op, Op::Send { kind: SendKind::Subscribe | SendKind::Unsubscribe, .. } | Op::Create { kind: SendKind::Subscribe | SendKind::Unsubscribe, .. }) {
             continue;
@@ -180,6 +188,11 @@ pub async fn run_case(c: Case) -> Result<CaseInfo, Failure> {
     }
     info.labels.push(c.role.name());
     Ok(info)
+}
+
+/// the kinds of C05 plus QoS 1 through the non-blocking API (`publish_ack_cb`)
+fn send_kind() -> BoxedStrategy<SendKind> {
+    prop_oneof![5 => Just(SendKind::Qos1), 2 => Just(SendKind::Qos2), 1 => Just(SendKind::Subscribe), 1 => Just(SendKind::Unsubscribe), 1 => Just(SendKind::Ready), 2 => Just(SendKind::NoBlock)].boxed()
 }
 
 fn op_strategy() -> BoxedStrategy<Op> {
